@@ -270,6 +270,11 @@ func c03NeedsSep(a, b string) bool {
 	if (b == "and" || b == "or" || b == "div" || b == "mod") && c03NumTok.MatchString(a) {
 		return false
 	}
+	// the abbreviated steps are tokens of their own: '.' not followed by a digit and '..' end
+	// where they stand, and an operator name may follow them directly (.div 2, ..and a)
+	if (b == "and" || b == "or" || b == "div" || b == "mod") && (a == "." || a == "..") {
+		return false
+	}
 	return xp.NeedsSeparator(a, b)
 }
 
